@@ -22,6 +22,8 @@ PathTab ==
    prpc |-> [text |-> "/rpc",         segs |-> <<Lit("rpc")>>],
    pz   |-> [text |-> "/z",           segs |-> <<Lit("z")>>],
    pf   |-> [text |-> "/f",           segs |-> <<Lit("f")>>],
+   pux  |-> [text |-> "/u/{x}",       segs |-> <<Lit("u"), Par("x")>>],
+   puxy |-> [text |-> "/u/{x}/p/{y}", segs |-> <<Lit("u"), Par("x"), Lit("p"), Par("y")>>],
    pempty |-> [text |-> "/e/{}",      segs |-> <<Lit("e"), Par("")>>]]
 PathIds == DOMAIN PathTab
 
@@ -40,6 +42,8 @@ BodyTab ==
    refu   |-> [text |-> "@nope",                 kind |-> "schema", root |-> "reference", rtype |-> "@nope", uses |-> {"@nope"}, enums |-> {}, keys |-> {}],
    hdr    |-> [text |-> "{\"H\": \"v\"}",        kind |-> "schema", root |-> "object", rtype |-> "object",  uses |-> {}, enums |-> {}, keys |-> {"H"}],
    pid    |-> [text |-> "{\"id\": 1}",           kind |-> "schema", root |-> "object", rtype |-> "object",  uses |-> {}, enums |-> {}, keys |-> {"id"}],
+   pxor   |-> [text |-> "{\n  \"x\": 1 // {or: [{type: \"integer\"}, {type: \"string\"}]}\n}", kind |-> "schema", root |-> "object", rtype |-> "object", uses |-> {}, enums |-> {}, keys |-> {"x"}],
+   py     |-> [text |-> "{\"y\": 1}",            kind |-> "schema", root |-> "object", rtype |-> "object",  uses |-> {}, enums |-> {}, keys |-> {"y"}],
    px     |-> [text |-> "{\"x\": 1}",            kind |-> "schema", root |-> "object", rtype |-> "object",  uses |-> {}, enums |-> {}, keys |-> {"x"}],
    en     |-> [text |-> "[1, \"a\"]",            kind |-> "enum",   root |-> "array",  rtype |-> "array",   uses |-> {}, enums |-> {}, keys |-> {}],
    d1     |-> [text |-> "text one",              kind |-> "text",   root |-> "",       rtype |-> "",        uses |-> {}, enums |-> {}, keys |-> {}],
